@@ -757,7 +757,7 @@ def exhaustive_cases(max_cells, max_cells_masked):
 class Watchdog:
     """The kernels are nogil Numba code: a boundary follower that never returns to its start would hang the check
     for ever.  A daemon thread turns such a hang into a reported failing input (replay file + VIOLATION line, exit 1)."""
-    LIMIT = 90.0
+    LIMIT = 300.0     # includes the first-call JIT compilation (10-30 s unloaded); generous so that a loaded machine never trips it
     inst = None
 
     def __init__(self, ctx):
